@@ -29,6 +29,7 @@ func init() {
 		e.RPureRestore()
 		e.RSharedState()
 		e.RPerFileState()
+		e.RBufferReuse()
 		e.RFragOrder()
 	})
 	register("C17", Meta{
